@@ -25,7 +25,8 @@ func init() {
 			" R11 a half-applied change is never emitted (a failed Change.Replace ends the file in the command and the library); R8 also: matches are replaced innermost first (F15)." +
 			" R12 the text kept of a patch line is not a window into a buffered reader's buffer: the result of bufio.Scanner.Bytes / Reader.ReadSlice / ReadLine / Peek (and Bytes / Next of a bytes.Buffer that the same function rewinds) is only inspected, converted or copied — never stored in a field other than the reader's own current-line cache, a slice element, a map or a channel, nor returned to a caller that does so." +
 			" R13 both compilers of a change are given the declaration table compileMeta returned." +
-			" R15 the node kept as the pattern is reached from the parsed source through File.Decls, FuncDecl.Body, BlockStmt.List and ExprStmt.X only; R16 the tree handed to the snapshot and to the changes is the first result of parser.ParseFile in this call (both pipelines).",
+			" R15 the node kept as the pattern is reached from the parsed source through File.Decls, FuncDecl.Body, BlockStmt.List and ExprStmt.X only; R16 the tree handed to the snapshot and to the changes is the first result of parser.ParseFile in this call (both pipelines)." +
+			" R17 where the section splitter searches for the end of a line by index, the not-found edge sets the offset to len(content).",
 		Trusted:     commonTrusted,
 		Assumptions: commonAssumptions,
 	})
@@ -68,6 +69,7 @@ func runC03(r *an.Run) {
 	patternRootIsWhatWasWritten(r, "R15-the-pattern-root-is-what-was-written")
 	// the code a metavariable stood for is taken from the file given, not from the output of an earlier call
 	treeIsParsedFromTheBytesGiven(r, "R16-the-tree-rewritten-is-parsed-from-the-bytes-given")
+	unterminatedLastLineIsALine(r, "R17-an-unterminated-last-line-is-a-line")
 }
 
 func c03Siblings(r *an.Run) {
